@@ -57,6 +57,18 @@ class Project:
             real_out = os.path.join(scratch_root, "storage vol", "deeper", name + "-cond-out")
             os.makedirs(real_out, exist_ok=True)
             os.symlink(real_out, os.path.join(self.root, "cond-out"))
+        if hostile.get("pkgdir_symlink"):
+            # the output directory of ONE package lives on other storage (cond-out/<pkg> is a symbolic link to a
+            # directory at another depth): e.g. the figures of a paper, or a package with bulky outputs
+            pkgs = sorted({t["pkg"] for t in tasks if t["pkg"]})
+            if pkgs:
+                pk = pkgs[int(hostile.get("pkg_index", 0)) % len(pkgs)]
+                link = os.path.join(self.root, "cond-out", pk)
+                if not os.path.lexists(link):
+                    os.makedirs(os.path.dirname(link), exist_ok=True)
+                    real = os.path.join(scratch_root, "bulk storage", "x", "y", "z", name + "-" + pk.replace("/", "_"))
+                    os.makedirs(real, exist_ok=True)
+                    os.symlink(real, link)
         if hostile.get("outer_project") and not os.path.exists(os.path.join(scratch_root, "cond_config.toml")):
             # the project is nested in another Conductor project's tree; the nearest cond_config.toml is the root
             with open(os.path.join(scratch_root, "cond_config.toml"), "w") as f:
@@ -121,6 +133,9 @@ def hostile_choice(rng, p_root=0.25, p_link=0.2, p_outer=0.15, p_env=0.2, p_cpu=
     if rng.random() < p_cpu:
         h["one_cpu"] = True
         h["cpu_index"] = rng.randrange(64)
+    if rng.random() < 0.12:
+        h["pkgdir_symlink"] = True
+        h["pkg_index"] = rng.randrange(16)
     if rng.random() < 0.15:
         # COND files written as sweeps: one args list / options dict / deps list per file, updated in place
         h["reused_containers"] = True
